@@ -17,11 +17,13 @@
 (* current tree, so what is proved is proved about the tree's constants.                  *)
 (*                                                                                        *)
 (* Named deviation GapAtDeadline:                                                         *)
-(*   FALSE = the code as it is: the remainder `gap` is added only when                    *)
-(*           start < deadline < end  (`if startOffset < deadline` / `if endOffset >       *)
-(*           deadline`), so Gov(a, deadline) + Gov(deadline, c) loses it;                 *)
-(*   TRUE  = the intended design (`if startOffset <= deadline`): the remainder is what    *)
-(*           is released during the second [deadline, deadline+1).                        *)
+(*   TRUE  = the design, and the code since fix fbb557da (`if startOffset <= deadline`):  *)
+(*           the remainder `gap` is what is released during [deadline, deadline+1);       *)
+(*   FALSE = the code before that fix (`if startOffset < deadline`): the remainder was    *)
+(*           added only when start < deadline < end, so Gov(a, deadline) +                *)
+(*           Gov(deadline, c) lost it.  The check probes Gov(deadline, deadline+1) on the *)
+(*           real function to see which variant the tree is, proves the matching          *)
+(*           obligations, and reports the FALSE variant as a violation of C09.            *)
 (* All type annotations are for Apalache; TLC ignores them.                               *)
 EXTENDS Integers, Sequences
 
